@@ -23,7 +23,7 @@ PROPS = {
     ),
     'C05': dict(
         level='proof',
-        contracts=['C05', 'body_read', 'body_access'],
+        contracts=['C05', 'body_read', 'body_access', 'config'],
         frames=[],
         technique='deductive: loop-invariant VCs over ghost stream state generated from the real AST of _iter_chunked / _body_read, '
                   'z3 then cvc5; bounded run-time contract check against an RFC 7230 reference decoder as replay harness',
@@ -40,7 +40,7 @@ PROPS = {
     ),
     'C13': dict(
         level='proof',
-        contracts=['body_read', 'C04', 'C05', 'C12', 'fieldstorage', 'body_access'],
+        contracts=['body_read', 'C04', 'C05', 'C12', 'fieldstorage', 'body_access', 'config'],
         frames=['errors_map_const'],
         technique='deductive: loop-invariant VCs from the real AST of _body_read (limit, spooling, content) on top of the proved '
                   'generator contracts of _iter_body/_iter_chunked (part size <= buffer); bounded run-time check as replay harness',
@@ -239,7 +239,7 @@ PROPS = {
         level_note='Depth bound and universes are stated in coverage.bounded.bound.',
     ),
     'C01': dict(
-        level='other', contracts=['C02', 'C01', 'radix'], frames=[],
+        level='other', contracts=['C02', 'C01', 'radix'], frames=['router_consts'],
         technique='bounded run-time contract check: RadiRouter.resolve / Ombott.__call__ against an independent rule-by-rule spec matcher '
                   'over enumerated rule lists and paths; proved side obligations on RadiRouter.resolve (result assembly)',
         explanation='BOUNDED: ordered rule lists (singletons of a 4641-rule universe, pairs, prefix-sharing families, random lists) x all short '
@@ -276,7 +276,7 @@ PROPS = {
         level_note='Bounds are stated in coverage.bounded.bound.',
     ),
     'C12': dict(
-        level='other', contracts=['C05', 'body_read', 'C18', 'C12', 'fieldstorage', 'body_access', 'C03', 'collect'], frames=['errors_map_const'],
+        level='other', contracts=['C05', 'body_read', 'C18', 'C12', 'fieldstorage', 'body_access', 'C03', 'collect', 'config'], frames=['errors_map_const'],
         technique='bounded run-time contract check of grammar-mutated bodies through Ombott.__call__ (status class, delivered fields complete); '
                   'proved exception frames of _iter_chunked, _body_read, _body, _raise, _get_body_string, json, POST, FieldStorage.read; termination of the readers and of parse_qsl',
         explanation='BOUNDED grammar mutations, truncations, byte mutations, small-scope bodies; proved: _iter_chunked raises only BodyParsingError, '
